@@ -96,6 +96,12 @@ def replay_asm(ctx, payload):
         ctx.violation(payload["signature"], payload["what"], dict(kind="asm", mode=payload["mode"], event=payload["event"]))
 
 
+def spec_asm_model(ctx):
+    r = ctx.tlc("MC_Asm", workers=NCPU, timeout=1800, heap="8g")
+    ctx.notes["spec_model_asm"] = ("MC_Asm: %d states; Structural (meaning => well-formed, legal '88), EquPlacement, Rename (label/EQU spelling), "
+                                   "Tables (default modifiers = second encoding of the ICWS'94 table) hold" % r["distinct"])
+
+
 def spec_expr_model(ctx):
     r = ctx.tlc("MC_Expr", workers=NCPU, timeout=1200, heap="8g")
     ctx.notes["spec_model_expr"] = "MC_Expr: token-level evaluator = AST evaluator on %d rendered ASTs; regression vectors hold" % r["distinct"]
@@ -109,6 +115,7 @@ def check_C03(ctx):
                        "distinct_nontrivial = programs that have a meaning (not rejected by the spec as ill-formed).")
     ctx.cov["trusted_base"] = ["harness renderer (asmgen.go)", "harness/enc.go tables", "TLC", "Json module"]
     spec_expr_model(ctx)
+    spec_asm_model(ctx)
     shards, st = gen_asm(ctx, "asm", ["-shards", 16 if ctx.quick else 128, "-n", 3000 if ctx.quick else 200000, "-variants", 4 if ctx.quick else 8], "c03")
     rej, nom = validate_asm(ctx, shards, "C03")
     ctx.binding_selftest("AsmTrace", shards, "C03")
@@ -146,6 +153,7 @@ def check_C06(ctx):
                        "Every SUCCESSFUL result is logged and TLC evaluates WellFormedW (fields < M, entry point inside the code, length <= MAXLENGTH, defined opcodes/modifiers/modes) and, under '88 rules, "
                        "the independently written Legal88 table. Rejected inputs are never compared with anything. distinct_nontrivial = accepted inputs.")
     ctx.cov["trusted_base"] = ["harness/enc.go tables", "TLC", "Json module"]
+    spec_asm_model(ctx)
     shards, st = gen_asm(ctx, "outs", ["-shards", 16 if ctx.quick else 128, "-n", 20000 if ctx.quick else 2000000], "c06")
     rej, _ = validate_asm(ctx, shards, "C06")
     ctx.binding_selftest("AsmTrace", shards, "C06")
